@@ -1584,6 +1584,8 @@ func engineScenarios(c *Ctx, cat *engCatalogue, r *Rng, nGen int) []*engScenario
 		}
 		add(cat.scenario("ds/four/FourModel.csv", 4, float64(int(four.totalsAt(all)[4]*0.3)))) // most sets invalid, the as-is set valid
 	}
+	// every cost an exact half cent: on/off round trips through the incremental routes must leave nothing behind
+	add(cat.scenario("ds/tie/TieModel.csv", -1, 0))
 	// more than 64 management actions: two-word encodings
 	for i := 0; i < c.N(1, 2); i++ {
 		add(cat.scenario(fmt.Sprintf("ds/big-%d/bModel.csv", 500+r.U64()%1000), -1, 0))
